@@ -208,9 +208,18 @@ def _const_part(t):
     return 0
 
 
+def _mentions_length(t, depth=0):
+    if depth > 6 or not z3.is_app(t):
+        return False
+    if t.decl().kind() == z3.Z3_OP_SEQ_LENGTH:
+        return True
+    return any(_mentions_length(c, depth + 1) for c in t.children())
+
+
 def int_binop2(ex, op, a, b):
     r = _xor_int_binop(ex, op, a, b)
-    if type(op) is ast.Mod and isinstance(r, Sym) and isinstance(b, int) and not isinstance(b, bool) and b > 0 and isinstance(a, Sym) and not ex.quant:
+    # (only for terms over string lengths: that is where a concrete value pays off -- slice bounds, paddings)
+    if type(op) is ast.Mod and isinstance(r, Sym) and isinstance(b, int) and not isinstance(b, bool) and b > 0 and isinstance(a, Sym) and not ex.quant and _mentions_length(a.t):
         cand = _const_part(a.t) % b
         if ex.proves(a.t % b == cand):
             return cand
@@ -365,3 +374,121 @@ class Rec:
 
 def recursive(name, n, stop, base, step, measure, depth=1):
     return Rec(name, n, stop, base, step, measure, depth)
+
+
+# ---------------------------------------------------------------------------
+# 5. if-conversion of a pure diamond
+#        if c: x = f(..)  else: x = g(..)
+#    (one assignment to the same target in each arm, right-hand sides calls of pure functions: spec
+#    functions, or callees replaced by a contract with modifies=[] / no raises / functional result=)
+#    with byte strings of the same concrete length as values: both arms are evaluated and the target gets
+#    the byte-wise `If(c, a_j, b_j)` instead of forking the path.  Anything else: the ordinary rule.
+# ---------------------------------------------------------------------------
+_orig_st_If = _E.Path.st_If
+
+
+def _pure_arg(n):
+    if isinstance(n, ast.Constant):
+        return True
+    if isinstance(n, ast.Name):
+        return True
+    if isinstance(n, ast.Attribute):
+        return _pure_arg(n.value)
+    return False
+
+
+def _pure_call(ex, n):
+    from .values import Func
+
+    if not isinstance(n, ast.Call) or not isinstance(n.func, (ast.Name, ast.Attribute)) or not _pure_arg(n.func):
+        return False
+    if not all(_pure_arg(a) for a in n.args) or not all(k.arg is not None and _pure_arg(k.value) for k in n.keywords):
+        return False
+    try:
+        f = ex.eval(n.func)
+    except Exception:  # noqa: BLE001
+        return False
+    if not isinstance(f, Func):
+        return False
+    if f.origin == 'spec':
+        return True
+    c2 = ex.cfg.contract_for(ex, f'{f.module.__name__}:{f.qualname}', f)
+    return c2 is not None and not c2.modifies and not c2.raises and c2.extra.get('result') is not None
+
+
+def _same_target(a, b):
+    return isinstance(a, (ast.Name, ast.Attribute)) and ast.dump(a) == ast.dump(b) and (isinstance(a, ast.Name) or _pure_arg(a.value))
+
+
+def st_If(self, s):
+    if (
+        not self.quant
+        and len(s.body) == 1
+        and len(s.orelse) == 1
+        and isinstance(s.body[0], ast.Assign)
+        and isinstance(s.orelse[0], ast.Assign)
+        and len(s.body[0].targets) == 1
+        and len(s.orelse[0].targets) == 1
+        and _same_target(s.body[0].targets[0], s.orelse[0].targets[0])
+        and _pure_call(self, s.body[0].value)
+        and _pure_call(self, s.orelse[0].value)
+    ):
+        c = self.truth(self.eval(s.test))
+        if isinstance(c, Sym) and c.k == 'bool':
+            a = self.eval(s.body[0].value)
+            b = self.eval(s.orelse[0].value)
+            m = _merge_bytes(self, c, a, b)
+            if m is None:
+                m = a if self.branch(c) else b
+            self.assign(s.body[0].targets[0], m)
+            return
+        if isinstance(c, bool):
+            self.exec_block(s.body if c else s.orelse)
+            return
+        return _orig_st_If(self, s)  # (evaluates the test again: tests are pure in the pattern's context or fork as usual)
+    return _orig_st_If(self, s)
+
+
+def _merge_bytes(ex, c, a, b):
+    if ex.kind_of(a) != 'bytes' or ex.kind_of(b) != 'bytes':
+        return None
+    ta, tb = zbytes(a), zbytes(b)
+    na, nb = conc_int(z3.Length(ta)), conc_int(z3.Length(tb))
+    if na is None or na != nb or na == 0 or na > 64:
+        return None
+    units = []
+    for j in range(na):
+        x, y = M.read_byte(ex, ta, z3.IntVal(j)), M.read_byte(ex, tb, z3.IntVal(j))
+        xt, yt = zint(x), zint(y)
+        if xt.eq(yt):
+            units.append(z3.Unit(xt))
+            continue
+        t = z3.simplify(z3.If(c.t, xt, yt))
+        if M.is_known_byte(ex, x) and M.is_known_byte(ex, y):
+            M.mark_byte(ex, t)
+        units.append(z3.Unit(t))
+    return Sym(units[0] if na == 1 else z3.Concat(*units), 'bytes')
+
+
+_E.Path.st_If = st_If
+
+# parsing the source of a clause function once per run (not once per use)
+_orig_spec_func = _V.Config.spec_func
+_SPEC_FUNCS = {}
+
+
+def spec_func(self, fn):
+    from .values import Func
+
+    if isinstance(fn, Func):
+        return fn
+    try:
+        hit = _SPEC_FUNCS.get(fn)
+    except TypeError:
+        return _orig_spec_func(self, fn)
+    if hit is None:
+        hit = _SPEC_FUNCS[fn] = _orig_spec_func(self, fn)
+    return hit
+
+
+_V.Config.spec_func = spec_func
